@@ -213,6 +213,7 @@ fn check_context(name: &str, body: &str, k: u64, seed: u64, root: bool) -> CaseR
 pub fn run(tier: Tier) -> i32 {
     let mut rep = Report::new("C14", tier, "exploration");
     rep.set("rule", json!("(trees) all expression trees with <= 2 binary operators over 14 operators x 10 leaves (8 literals incl. negative/fractional, $a, ${b}), 3 operators over one operator per class x 4 leaves (thorough: 11 operators x 6 leaves, and 4 operators over 6 x 3), each printed with minimal parentheses (no blanks / blanks) and fully parenthesised, plus a leading unary minus on the whole and on the left operand; (functions) every fixed-arity built-in x all argument tuples from the 8-value domain, each also with arity-1 and arity+1 (must fail), variadic functions over lists of length 0-3; (malformed) all token strings of <= 4 (thorough 5) tokens over a 17-token expression alphabet, classified by a reference recogniser of the documented grammar: strings malformed in a way the statement names (unbalanced parentheses, unknown function, dangling operator, undefined/circular variable, wrong arity) must fail, accepted strings must evaluate to the reference value, anything else is unspecified and only executed; (contexts) 34 attribute/element contexts containing random functions x 3 seeds x root/fragment: the PRNG must advance exactly once per rendered occurrence. Values are compared numerically (3-decimal output rounding, same NaN/inf class). Non-trivial = the reference defines a value and svgdx agrees (contexts: Ok with the exact draw count)."));
+    rep.set("also_later", json!("Round 5 added a carriers leg: 5 malformed expressions x 10 attribute kinds (id on shape / group / reuse, x, text, style, var, group attribute, if test, loop count) must all fail."));
     rep.set("also", json!("Also: (special values) NaN, +inf, -inf and 0 as arguments of every function in every position: never a panic; (quotes) expressions with a quote which is never closed must fail; (stored values) a value stored in a variable, a reuse or group local or a loop parameter and used again keeps its precision; contexts additionally cover id, group id, group locals read twice, templates inside <specs>, shapes with child elements / explicit end tags."));
 
     // trees
